@@ -11,7 +11,6 @@ na("C03", "Both directions pass through the CTE decoder = ANTLR ATN interpreter 
 na("C06", "Untyped unmarshal is builder.* over reflect.New/MakeSlice/MapOf/SetMapIndex/Append and a reference filler: a reflection-defined heap outside the engine's value model.")
 na("C17", "Goroutine interleavings over sync.Map, WaitGroup and atomics: the engine has no concurrency semantics.")
 na("C20", "Pointer-graph discovery uses reflect.Value.Pointer, go-duplicates (unsafe) and deferred setter closures over reflected fields; graph isomorphism over a symbolic heap is outside the value model.")
-na("C21", "Field extraction/order/omission is reflect.StructField/tags over arbitrary struct types (reflect.StructOf in the quantifier) plus regexp; no leaf kernel carries the property.")
 claim("C10",
       "Every event history up to the bound (structural alphabet forked by the engine, ids/integers/version as solver variables) is run through the real rules validator and a reference automaton written from the statement; after every event z3 shows the two verdicts agree.",
       "Reference automaton = DESIGN.md A.2 (harness/C10). Bounds: history length 5 quick / 6 thorough. Markers/references (C13), arrays (C11), comments/padding not generated.",
@@ -20,6 +19,10 @@ claim("C12",
       "Two keys of one map / record type in every pair of event forms (PosInt, NegInt, Int, BigInt<=2 words, string/RID whole, as array, chunked with any split, UID, bool) with fully symbolic values: z3 shows the second key is rejected iff both denote the same value.",
       "Oracle: integers by sign and 128-bit magnitude, strings by bytes, kinds distinct. NegativeInt(0) excluded (denotes -0.0). Times not generated.",
       "DESIGN.md §5 C12")
+claim("C21",
+      "The real iterator Session/struct iterator and builder Session/BuilderEventReceiver/structBuilder run on the engine's reflect emulation. Marshal side: a struct type with every tag (omit, omit_empty, omit_zero, omit_never, name=, order=), an embedded struct, an unexported field and an acronym name, with symbolic field contents (uint64, string, []byte, *uint64), both name styles and three default omit behaviours; z3 shows the events are exactly the kept fields, once each, under the configured or tagged name, in tag order, validated by the real rules. Unmarshal side: maps whose keys are strings of 1..4 symbolic ASCII bytes are built into a struct; z3 shows each field holds the value of the last key that names it (exactly, or ignoring case, '_' and ' ' when case-insensitive matching is on), keys that match no field are skipped, other fields undisturbed.",
+      "Struct *types* are fixed Go types (one per side): the quantifier over random struct types is not covered, only their contents, keys and configuration are symbolic. sync.Map/WaitGroup run in a sequential model. In case-sensitive mode the statement is silent about a key that equals a field's folded name; that case is left undecided. Non-ASCII keys are outside the bound.",
+      "DESIGN.md §5 C21")
 
 # everything else that is planned but has no check yet
 PLANNED = ["C%02d" % k for k in range(1, 30)]
@@ -56,7 +59,7 @@ claim("C28",
       "Bounds: documents 3..12 bytes, 7 templates, cuts of 1..4 bytes. CTE and universal stream entry points delegate to io.Copy/bufio.Peek and then the ANTLR parser: outside reach.",
       "DESIGN.md §5 C28")
 claim("C29",
-      "The fault point is the solver variable: index k (0..31) of the failing Write call during cbe/cte Marshaler.Marshal and of the failing Read call (non-EOF error, optionally with partial data) during cbe.Decoder.Decode and cte.Decoder.Decode, over document templates with symbolic payload; z3 shows the entry returns a non-nil error whenever the fault was hit (and nil otherwise) and no panic escapes.",
+      "The fault point is the solver variable: index k (0..31) of the failing Write call (transient: that call only, or persistent) during cbe/cte Marshaler.Marshal and of the failing Read call (non-EOF error, optionally with partial data) during cbe.Decoder.Decode and cte.Decoder.Decode, over document templates with symbolic payload; z3 shows the entry returns a non-nil error whenever the fault was hit (and nil otherwise) and no panic escapes.",
       "The marshaler's reflection walk (iterator.Session.Init, RootObjectIterator.Iterate) is replaced by a template event source and cte.ParseDocument by an accepting stub; Marshal wrappers, encoders, writers, readers and the CTE copy loop are the real code. Unmarshaler wrappers (builder sessions) not covered.",
       "DESIGN.md §5 C29")
 claim("C18",
@@ -72,34 +75,34 @@ claim("C07",
       "Outside: template types / unsupported kinds (reflection), the CTE parser proper, goroutine blocking. 'Never blocks' = per-path step budget of 5M interpreted instructions.",
       "DESIGN.md §5 C07")
 claim("C08",
-      "Ghost allocation counter over make/append in the real CBE decoder: for every length-carrying header with symbolic length fields and a symbolic MaxArraySizeBytes in [1,4096], z3 shows no single request and no path total exceeds 64*len(document) + 2*MaxArraySizeBytes + 1 MiB, rules on and off.",
-      "Bound constants chosen generously (DESIGN.md §5 C08). Decoding time and the CTE decoder are outside reach. Memory = bytes requested through make/append (engine ghost state).",
+      "Ghost allocation counter over make/append in the real CBE decoder. (a) For every length-carrying header with symbolic length fields and a symbolic MaxArraySizeBytes in [1,4096], z3 shows no single request and no path total exceeds 64*len(document) + 2*MaxArraySizeBytes + 1 MiB, rules on and off. (b) Inductive step for long payloads: from a reader whose buffer has any size of the doubling sequence (127..65024), readIntoBuffer(count) with count symbolic up to 2^36 against a stream that really delivers 0..3*len(buffer) bytes reserves at most 4x the bytes received and leaves a buffer of at most twice the data received.",
+      "Bound constants chosen generously (DESIGN.md §5 C08). Decoding time and the CTE decoder are outside reach. Memory = bytes requested through make/append (engine ghost state; natively runtime.MemStats.TotalAlloc).",
       "DESIGN.md §5 C08")
 claim("C09",
-      "Encoder-produced CBE documents (9 templates, symbolic payload) and raw accepted documents of 3..4 fully symbolic bytes (5 thorough) are cut at every position; z3 shows the decoder+validator reject every proper prefix.",
-      "Outside: 'partial result is a prefix of the full value' (builders/reflection) and CTE. Raw documents containing the padding code are excluded (a cut before trailing padding leaves a complete document).",
+      "Encoder-produced CBE documents (11 templates, symbolic payload, two with >= 64 elements so that a chunk header is a 2-byte ULEB128) and raw accepted documents of 3..4 fully symbolic bytes (5 thorough) are cut at every position (long templates: first and last 8 positions); z3 shows the decoder+validator reject every proper prefix.",
+      "Outside: 'partial result is a prefix of the full value' (builders) and CTE. Raw documents containing the padding code are excluded (a cut before trailing padding leaves a complete document).",
       "DESIGN.md §5 C09")
 claim("C04",
-      "One mechanism of C04: chunked-array reassembly in the real builder.BuilderEventReceiver/Context with a recording builder on top of the stack. Array type, number of chunks (1..3), element counts, data-event split points are enumerated by the engine and the content bytes are solver variables; z3 shows the builder is handed exactly one array, only after the final chunk is complete, with the concatenated bytes.",
-      "Every type-directed part of C04 (reflection-built builders, struct/map/pointer handling) is outside reach; a pass says nothing about them. The Builder interface carries no element count, so bit-array lengths are not observable here.",
+      "Two mechanisms of C04. (a) Chunked-array reassembly in the real builder.BuilderEventReceiver/Context with a recording builder on top of the stack: array type, number of chunks (1..3), element counts and data-event split points are enumerated by the engine, the content bytes are solver variables; z3 shows the builder is handed exactly one array, only after the final chunk, with the concatenated bytes. (b) Integer arrival: every int64/uint64 value, delivered as the events a decoder produces for it (PositiveInt/NegativeInt/Int) through the real event receiver and numeric setters into a destination of its own Go type (8..64 bits), is accepted and stored exactly.",
+      "Struct/map/slice/pointer builders are not covered here (C21 covers struct field matching); the Builder interface carries no element count, so bit-array lengths are not observable.",
       "DESIGN.md §5 C04")
 claim("C05",
-      "Leaf iterators (bool slices, eight numeric slice kinds, Edge, Node) run on an emulated reflect.Value with symbolic elements; the emitted events go through the real rules validator and a recorder; z3 shows acceptance and that the typed array carries exactly the elements (bit i = element i, little-endian element bytes).",
-      "reflect.Value is the engine's emulation; GetIteratorForType is supplied by the harness. Struct/map/list/pointer iterators, records, omit rules and recursion support are outside reach.",
+      "Leaf iterators (bool slices, eight numeric slice kinds, Edge, Node) and the struct / record iterators built by the real extractFields/newStructIterator/newRecordIterators (6 struct shapes, embedded structs nested 1..5 deep) run on an emulated reflect.Value with symbolic contents; the emitted events go through the real rules validator and a recorder; z3 shows acceptance and that typed arrays carry exactly the elements and every field appears once, in order, under its name, with its own contents.",
+      "reflect is the engine's emulation (append capacities follow the Go runtime's growslice so that aliasing after append is reproduced; validated by self-test T00); GetIteratorForType is supplied by the harness in these entries (C21 runs the real Session). Map/list/pointer iterators and recursion support are not covered.",
       "DESIGN.md §5 C05")
 claim("C23",
-      "The encoder half of C23: the real cte.EncoderEventReceiver (context, decorators, array engine, writer) encodes a typed / bit / string-like / media / custom-binary array delivered whole and delivered in 2 chunks with every chunk boundary and every data-event split point (mid-element, mid-character), with symbolic content; z3 shows both texts are byte-identical.",
-      "fmt.Sprintf on symbolic integers is an engine model proved equal to strconv by the self-test (T00). Float arrays (float text) and decode-then-re-encode idempotence (ANTLR) are outside reach. Quick bounds are small (2 elements / 2 bytes) because every digit count, bit and character class forks.",
+      "The encoder half of C23: the real cte.EncoderEventReceiver (context, decorators, array engine, writer) encodes a typed / bit / string-like / media / custom-binary array delivered whole and delivered in 2 chunks with every chunk boundary and every data-event split point (mid-element, mid-character), and one chunk of 3 multi-byte elements delivered as 3 data events at every pair of split points, with symbolic content; z3 shows both texts are byte-identical.",
+      "fmt.Sprintf on symbolic integers is an engine model proved equal to strconv by the self-test (T00). Float arrays (float text) and decode-then-re-encode idempotence (ANTLR) are outside reach. Quick bounds are small (2..3 elements / 2 bytes) because every digit count, bit and character class forks.",
       "DESIGN.md §5 C23")
 claim("C25",
       "For every format setting (7) and every integer array kind, the real CTE encoder writes an array whose element values are solver variables (symbolic fmt model), the element texts are cut out and parsed back by the real parseIntElement/parseUintElement (strconv interpreted from source) with the base the header selects; z3 (cvc5 as fallback) shows the parsed bytes equal the original element bytes for all element values.",
-      "Quick: all values of 8/16-bit kinds for all 7 settings, 32-bit kinds for binary/octal/hex settings; thorough adds 64-bit kinds and 32-bit decimal. The header->base association (grammar) is assumed; float kinds are outside reach. Setting value 1 (FlagZeroFilled alone) and unnamed values 2,3 are not exercised.",
+      "Quick: all values of 8/16-bit kinds for all 7 settings, 32-bit kinds for binary/octal/hex settings, 64-bit kinds at the range edges (top byte symbolic, low bytes all-zero/all-one); thorough adds 64-bit kinds with every bit symbolic and 32-bit decimal. The header->base association (grammar) is assumed; float kinds are outside reach. Setting value 1 (FlagZeroFilled alone) and unnamed values 2,3 are not exercised.",
       "DESIGN.md §5 C25")
 claim("C24",
-      "Listener callbacks of the CTE decoder (ExitValueInt, parseIntElement/parseUintElement, ExitCodepointContents, ExitEscapeChar) are driven with a symbolic token text constrained to the lexer rule's shape (sign, base prefix in either case, 1..3 symbolic digits, digit separators); a digit-accumulating reference gives the spelled value; z3 shows the emitted event / element bytes carry exactly that value, elements are rejected exactly when they do not fit, and escapes decode to the spelled character.",
-      "The ANTLR lexer/parser is not executed (token shapes taken from CTELexer.g4). Float literals, verbatim sequences, line continuations and integers beyond 64 bits are outside reach.",
+      "Listener callbacks of the CTE decoder (ExitValueInt, parseIntElement/parseUintElement, ExitCodepointContents, ExitEscapeChar) are driven with a symbolic token text constrained to the lexer rule's shape (sign, base prefix in either case, 1..3 symbolic digits, digit separators; decimal literals of 22 digits with leading zeros for the big-integer fallback); a digit-accumulating reference gives the spelled value; z3 shows the emitted event / element bytes carry exactly that value, elements are rejected exactly when they do not fit, and escapes decode to the spelled character.",
+      "The ANTLR lexer/parser is not executed (token shapes taken from CTELexer.g4). Float literals, verbatim sequences, line continuations and prefixed (non-decimal) integers beyond 64 bits are outside reach.",
       "DESIGN.md §5 C24")
 claim("C02",
-      "One kernel of C02 only: the time-zone latitude/longitude hundredths. Both hundredths are solver variables over their whole valid range; the real cte.parseTimezone runs with regexp and strconv.ParseFloat replaced by the contract 'the text of %.2f parses back to float64(h)/100' (checked natively on replay with the real regexp/ParseFloat); z3 shows the Timezone built carries the original hundredths.",
-      "A pass says nothing about the rest of C02: string escaping, comments, numeric text, all other time forms and every whole-document CTE round trip go through the ANTLR lexer/parser, which the engine cannot execute.",
+      "One kernel of C02: the time-zone latitude/longitude hundredths, as two lemmas that compose. Writer lemma: the real cte.Writer.WriteTime runs on a symbolic hundredths value (engine model of fmt's %.2f: digits of round-half-even(|x|*100) on the exact binary value) and z3 shows the text equals sign, degrees, '.', two digits for every value in range. Reader lemma: the real cte.parseTimezone runs on that text and z3 shows the Timezone built carries the original hundredths.",
+      "In the reader lemma the regexp is replaced by a splitter at '/' and strconv.ParseFloat by its contract on plain decimal texts (the nearest double, computed as integer/10^k); native replay uses the real regexp/ParseFloat and the real writer. A pass says nothing about the rest of C02: string escaping, comments, numeric text, all other time forms and every whole-document CTE round trip go through the ANTLR lexer/parser, which the engine cannot execute.",
       "DESIGN.md §5 C02")
